@@ -404,6 +404,10 @@ func c03(c *Ctx) {
 		}
 	}
 
+	c.R.Rule("R3.9", "the annotation observation and garbage collection key on is (re)stamped with the desired name on every render", 3,
+		"a still-desired resource that keeps a stale composition-resource-name is observed under another name: it matches no desired resource, is garbage collected and re-created on every reconcile")
+	stampRules(c)
+
 	c.R.Rule("R3.8", "P&T: the annotation the associator keys on is rendered after the from-XR patches", 1,
 		"a patch that overwrites crossplane.io/composition-resource-name makes the associator take a still-desired resource for one whose template is gone: it is deleted and re-created on every reconcile")
 	{
